@@ -68,7 +68,11 @@ MANIFEST = {
             "definitions (Drivers.GroundFOCheck) and PROVED for the model in partial-correctness form for every schedule and "
             "call history (C01GroundFOFull.C01_groundFO_correct_wfm_partial: whenever the model returns; decidable hypotheses "
             "SpecOK - arities, constants and variables in range, range restriction, block layout of names, acyclic "
-            "instantiation - decided per generated program by the driver; termination of the model is not proved).",
+            "instantiation - decided per generated program by the driver; reported tuples proved in range, so the statement "
+            "CorrectFO itself holds whenever the model returns: C01_groundFO_CorrectFO_of_returns). Termination: fuel "
+            "sufficiency proved (C01_groundFO_fuel_sufficient, fuel > predicate rank), total correctness proved on the "
+            "instantiation route (C01_groundFO_instantiation_total: ground model on inst P); the other error exits of the "
+            "first-order model (floundering negation, builder errors) are excluded per program by the executable check only.",
     "note": "Trusted: Lean kernel + standard axioms; the serialiser of first-order programs (spine.fo_sexp; the Herbrand instantiation itself is Lean's SemFO.ground, proved in C01FO, and cross-checked against the former Python instantiation on every program); Sem as the "
             "meaning of 'distribution semantics'. The engine (engine_stack.py/eval_nodes.py) is not modelled: agreement is "
             "established on the generated programs only. Floats vs exact rationals at 1e-9.",
